@@ -270,10 +270,10 @@ func (g *c04Gen) tx() c04Tx {
 	if rng.Chance(12) {
 		n = 1 + rng.Intn(g.cfg.MaxTxEntries)
 	}
-	// an injective mapped index emits up to two KVTs per entry into a buffer of MaxTxEntries*MaxBulkSize slots;
-	// beyond that the indexer goroutine panics and takes the process (this harness) down — see c04ProbeKvsOverflow,
-	// which demonstrates it in a child process.  Stay below.
-	if g.injMapped && n > g.cfg.MaxTxEntries/2 {
+	// an injective mapped index emits up to two KVTs per entry; idx._kvs has 2*MaxTxEntries*MaxBulkSize slots, so a
+	// full transaction fits.  Only when c04ProbeKvsOverflow (child process) saw the overrun panic of a tree with the
+	// old MaxTxEntries*MaxBulkSize buffer stay below it: the panic would take this harness down.
+	if c04KvsPanicPresent && g.injMapped && n > g.cfg.MaxTxEntries/2 {
 		n = g.cfg.MaxTxEntries / 2
 	}
 	if n > len(g.rows) {
@@ -945,11 +945,8 @@ func (c *c04Case) readAll(i int, d c04IdxDef, real c04Content, now int64, sendLe
 				if sh != c04History(real, k, q.off, q.desc, q.limit) {
 					c.fail(c04SigSnapHist, fmt.Sprintf("Snapshot.History(%x,off=%d,desc=%v,limit=%d): got %q, expected %q", k, q.off, q.desc, q.limit, sh, c04History(real, k, q.off, q.desc, q.limit)))
 				}
-				op := "shist"
-				if !c04Q.SnapHistCountsDown {
-					op = "hist"
-				}
-				lean(fmt.Sprintf("c04 %s %d %s %d %s %d", op, i, hx.Hex(k), q.off, b01(q.desc), q.limit), sh)
+				// `shist` = the model of Snapshot.History itself (key_reader.go)
+				lean(fmt.Sprintf("c04 shist %d %s %d %s %d", i, hx.Hex(k), q.off, b01(q.desc), q.limit), sh)
 			}
 		}
 		// GetWithPrefix
